@@ -97,6 +97,8 @@ type c18Case struct {
 	Input   string `json:"input_hex,omitempty"`
 }
 
+var readAllCalls int
+
 // readAll reads frames until an error; returns the frames, the error and the largest buffer held.
 func readAll(v variant, data []byte, chunks []int, limit int, max int) (frames [][]byte, err error, maxBuf int, panicked interface{}) {
 	defer func() {
@@ -106,9 +108,16 @@ func readAll(v variant, data []byte, chunks []int, limit int, max int) (frames [
 	}()
 	sr := &scriptReader{data: data, chunks: chunks}
 	rd := v.reader(sr, limit)
+	// a receive loop usually reads every frame into the same message value: even executions reuse one destination,
+	// odd ones take a fresh one per frame (what was read must not depend on it)
+	reuse := &emptypb.Empty{}
+	readAllCalls++
 	for i := 0; i < max; i++ {
 		// every field is unknown to Empty and therefore preserved byte for byte: re-marshalling gives the frame body
 		m := &emptypb.Empty{}
+		if readAllCalls%2 == 0 {
+			m = reuse
+		}
 		e := rd.ReadMsg(m)
 		if b := v.bufLen(rd); b > maxBuf {
 			maxBuf = b
